@@ -160,6 +160,23 @@ class BusSession:
     def advance(self, ms):
         self._distribute(self.bus.advance(ms))
 
+    def reload_same(self, out, desc):
+        """The bus re-reads the configuration it is already running with (SIGHUP / ReloadConfig): nobody may receive
+        anything and the canonical state must be what it was."""
+        before = self.impl_key()
+        self.bus.reload(self.bus.config)
+        self._distribute(self.bus.recvall())
+        self.hit('reload-same-configuration')
+        for l, box in self.inbox.items():
+            if box:
+                out.append(Violation('reload-visible', 'message', '%s: %s received %r when the bus re-read an unchanged configuration' % (desc, l, box[:2]), None))
+        for l, e in self.eof.items():
+            if e and self.slots.get(l) is not None:
+                out.append(Violation('reload-visible', 'disconnected', '%s: %s was disconnected when the bus re-read an unchanged configuration' % (desc, l), None))
+        after = self.impl_key()
+        if after != before and not out:
+            out.append(Violation('reload-visible', 'state', '%s: re-reading an unchanged configuration changed the state\n before: %s\n after : %s' % (desc, before[:600], after[:600]), None))
+
     def is_open(self, label):
         return self.slots.get(label) is not None
 
